@@ -2,7 +2,7 @@
 from facts import AnalysisBroken
 from model import (path_value, dstr, strip, fact_holds, mentions_field, mentions_call, mentions_var,
                    mentions_enum, const_value, walk, ret_value_class)
-from rules import (guarded, calls_to, field_writes, who_may_call, full_range, loops_over,
+from rules import (deep_resolve, guarded, calls_to, field_writes, who_may_call, full_range, loops_over,
                    every_iteration_passes, basename, origins, is_var, is_enum, lastname,
                    dominated_by, reached_only_via, must_pass, linear)
 import charset
@@ -34,7 +34,7 @@ def run(ctx):
                               f.where(e), 'EdgeEnv in %s uses %s' % (f.name, m))
     for name, key in (('Edge::GetUnescapedDepfile', 'depfile'), ('Edge::GetUnescapedDyndep', 'dyndep'), ('Edge::GetUnescapedRspfile', 'rspfile')):
         f = prog.fn(name)
-        ok = any(e.get('name') == 'EdgeEnv::LookupVariable' and ('"%s"' % key) in dstr(e.get('args')) for e in f.events('call'))
+        ok = any(e.get('name') == 'EdgeEnv::LookupVariable' and ('"%s"' % key) in dstr(deep_resolve(f, e.get('args'))) for e in f.events('call'))
         ctx.check('C16.W1', ok, name, 'unescaped-accessor:key', f.loc, '%s looks up "%s"' % (name, key))
     ec = prog.fn('Edge::EvaluateCommand')
     rets = list(ec.events('ret'))
